@@ -10,7 +10,8 @@
 From Coq Require Import ZArith List Bool Lia.
 From EC Require Import Lib.Outcome Lib.ListW Model.Msgs Model.Replica Model.ReplicaRun Model.Protocol
   Model.ProtocolSync Proofs.ReplicaLive Proofs.ProtocolRefinesExec Proofs.ProtocolRefinesExample
-  Proofs.ProtocolLive Proofs.ProtocolLiveExample.
+  Proofs.ProtocolLive Proofs.ProtocolLiveInv Proofs.ProtocolLiveExample.
+From EC Require Proofs.ReplicaCaches Proofs.ReplicaJustified.
 Import ListNotations.
 Open Scope Z_scope.
 
@@ -107,6 +108,62 @@ Theorem C06G_node_invariants : forall P (I : rstate -> Prop) (D : durable -> Pro
   forall s, preach P s -> forall k, node_ok I D (g_node s k).
 Proof. exact preach_node_ok. Qed.
 Print Assumptions C06G_node_invariants.
+
+(* ---- the single-replica liveness invariants, in every reachable global state ---- *)
+(* everything durable: certificates verify (ReplicaJustified.durable_ok), a non-zero view has a
+   certificate (ReplicaLive.dur_ok), views are >= 0, and beyond view 0 a certificate for at least
+   view - 1 is held; every node that has not stopped: well-formed vote caches
+   (ReplicaCaches.cache_inv), both held certificates verify (ReplicaJustified.certs_ok), and the
+   same bounds on its volatile state ("justified") *)
+Theorem C06G_live_invariant : forall P s, preach P s -> forall k,
+  LD P (n_dur (g_node s k)) /\ (n_alive (g_node s k) = true -> LI P (n_live (g_node s k))).
+Proof. exact preach_LI. Qed.
+Print Assumptions C06G_live_invariant.
+
+Theorem C06G_live_invariant_unfold : forall P s d,
+  (LI P s <->
+   (ReplicaCaches.cache_inv (pcfg P 0) s /\ ReplicaJustified.certs_ok (pcfg P 0) s /\ just_ok s /\
+    0 <= r_view s /\ (r_view s <> 0 -> ReplicaJustified.justified s))) /\
+  (LD P d <->
+   (ReplicaJustified.durable_ok (pcfg P 0) d /\ ReplicaLive.dur_ok d /\ 0 <= d_view d /\
+    (d_view d <> 0 -> dheld d (d_view d - 1)))).
+Proof. exact (fun P s d => conj (iff_refl _) (iff_refl _)). Qed.
+Print Assumptions C06G_live_invariant_unfold.
+
+(* the view bound: the justification a running node sends is for at least its own view *)
+Theorem C06G_view_bound : forall P s j, ReplicaJustified.certs_ok (pcfg P 0) s ->
+  ReplicaJustified.justified s -> get_justification s = Ok j -> r_view s - 1 <= just_vnum j.
+Proof. exact justified_highest. Qed.
+Print Assumptions C06G_view_bound.
+
+(* a running honest node that has retransmitted (end of a round without view change) has put a
+   verifying new-view message for at least its own view on the network *)
+Theorem C06G_retransmitted_announces : forall P s k,
+  preach P s -> honestb P k = true -> n_alive (g_node s k) = true ->
+  retransmitted P s k -> cert_headroom s k ->
+  r_view (n_live (g_node s k)) = 0 \/ announced P s (r_view (n_live (g_node s k))).
+Proof. exact retransmitted_announces. Qed.
+Print Assumptions C06G_retransmitted_announces.
+
+Theorem C06G_announced_catch_up : forall P pay s V k,
+  announced P s V -> honestb P k = true -> n_alive (g_node (sync_round P pay s) k) = true ->
+  V <= r_view (n_live (g_node (sync_round P pay s) k)).
+Proof. exact announced_catch_up. Qed.
+Print Assumptions C06G_announced_catch_up.
+
+(* (b), two rounds: every running honest node reaches the view of any honest node that ended the
+   previous round running without having changed its view *)
+Theorem C06G_catch_up_two_rounds : forall P pay s h k,
+  preach P s -> honestb P h = true -> honestb P k = true ->
+  let s1 := sync_round P pay s in
+  let s2 := sync_round P pay s1 in
+  n_alive (g_node s1 h) = true ->
+  r_view (n_live (g_node s1 h)) = r_view (n_live (g_node (revive_all P s) h)) ->
+  cert_headroom s1 h ->
+  n_alive (g_node s2 k) = true ->
+  r_view (n_live (g_node s1 h)) <= r_view (n_live (g_node s2 k)).
+Proof. exact catch_up_two_rounds. Qed.
+Print Assumptions C06G_catch_up_two_rounds.
 
 (* ---- non-vacuity ---- *)
 Example C06G_example_rounds :
